@@ -997,7 +997,7 @@ def replay(ctx, obj):
     if fi.get('kind') == 'cli':
         from harness import cli_cases
         return cli_cases.replay_cli(ctx, fi)
-    if fi.get('kind') in ('glue', 'e2e'):
+    if fi.get('kind') in ('glue', 'e2e', 'cube-e2e'):
         return c13x.replay_extra(ctx, fi)
     if fi['kind'] == 'estimate':
         msg = mirror_problem(fi['case'])
